@@ -62,6 +62,11 @@ impl InputEvent {
         }
     }
 
+    /// The bytes of this event as written (without the markup around them).
+    pub fn content_bytes(&self) -> &[u8] {
+        &self.event
+    }
+
     pub fn is_comment(&self) -> bool {
         matches!(&self.event, Event::Comment(_))
     }
